@@ -60,8 +60,8 @@ theorem allDel_preserves (cfg : Cfg) (H : Bytes → Nat) (bal : BalMap) (C : Coi
     Rel cfg H (allDel cfg H bal r mask) (unlay C r.key mask 0) :=
   (delOuts_rel r.outs 0 bal C h (by intro i; simpa using hrec i)).1
 
-/-- One step of the UTXO change stream (commit add / commit del / undo del / undo add / enable / disable)
-    preserves the invariant, under the named admissibility facts. -/
+/-- One step of the UTXO change stream (commit add / commit del / undo del / undo add / enable / disable / restart
+    through the balances cache) preserves the invariant, under the named admissibility facts. -/
 theorem step_preserves (H : Bytes → Nat) (s : State) (ev : Ev) (h : Inv H s) (ha : Admissible s ev) :
     Inv H (step H s ev) :=
   inv_step ev h ha
@@ -75,8 +75,8 @@ theorem enable_builds_projection (H : Bytes → Nat) (s : State) (mn um : Nat) (
   refine ⟨hon, by simp [step, hoff], hi.2 hon⟩
 
 /-- Induction over the whole history: after ANY admissible sequence of connects' adds/dels (in any
-    interleaving), disconnects' dels/adds, on/off switches and builds-from-populated, starting from the
-    empty node, the invariant holds. -/
+    interleaving), disconnects' dels/adds, on/off switches, builds-from-populated and restarts through the balances
+    cache (`.reload`: any UseMapCnt, any map iteration order while saving), starting from the empty node, the invariant holds. -/
 theorem inv_all_histories (H : Bytes → Nat) (evs : List Ev) (hadm : AdmissibleRun H State.init evs) :
     Inv H (run H State.init evs) :=
   inv_run evs State.init (inv_init H) hadm
@@ -397,7 +397,10 @@ theorem load_serialized_compressed (K : ScriptCompress.KeyOps) (hK : K.Sound) (H
     package-level / imported quantities that ordered comparisons on the paths of the callbacks TxNotifyAdd /
     TxNotifyDel depend on are `common.AllBalMinVal()` (the value in force) and, when adding, the list->map
     threshold; nothing in client/wallet reads CFG.AllBalances.MinValue; the wallet's copy of
-    CFG.AllBalances.UseMapCnt is assigned only in InitMaps and LoadBalances, from that field. -/
+    CFG.AllBalances.UseMapCnt is assigned only in InitMaps and LoadBalances, from that field; the paths of the two
+    callbacks call no standard-library search that assumes a SORTED slice (slices.BinarySearch*, sort.Search*, sort.Find):
+    the model finds an entry by membership, and an entry list restored from the balances cache is in arbitrary order
+    (`shrunk_map_reloads_as_list_in_any_order`). -/
 theorem model_matches_source_facts :
     Gen.WalletCfgFacts.minValWriters = ["ApplyBalMinVal"] ∧
     Gen.WalletCfgFacts.minValStored = ["CFG.AllBalances.MinValue"] ∧
@@ -411,7 +414,8 @@ theorem model_matches_source_facts :
     Gen.WalletCfgFacts.addPathReadsInForce = true ∧ Gen.WalletCfgFacts.delPathReadsInForce = true ∧
     Gen.WalletCfgFacts.walletReadsCfgMinValue = [] ∧
     Gen.WalletCfgFacts.useMapCntWriters = ["InitMaps", "LoadBalances"] ∧
-    Gen.WalletCfgFacts.useMapCntSources = ["int(common.Get(&common.CFG.AllBalances.UseMapCnt))"] :=
+    Gen.WalletCfgFacts.useMapCntSources = ["int(common.Get(&common.CFG.AllBalances.UseMapCnt))"] ∧
+    Gen.WalletCfgFacts.callbackPathSortedSearches = [] :=
   source_facts
 
 /-- A config change landing DURING the build of the index is ignored until the next build: for ANY schedule `chg` of
@@ -492,6 +496,66 @@ theorem load_balances_roundtrip (um : Nat) (ms : List (List (Nat × Bal)))
     simp only [List.append_nil] at h1
     simp only [List.map_cons, GocoinV.Model.BalancesDisk.loadAll, h1,
       ih (fun x hx => hl x (List.mem_cons_of_mem _ hx)) (fun x hx => hk x (List.mem_cons_of_mem _ hx))]
+
+/-! ### restart through the balances cache as an event of the histories (`Ev.reload`)
+
+  `Ev` now has the event `.reload useMapCnt ords` = SaveBalances; restart; LoadBalances, so every history theorem above
+  (`inv_all_histories`, `balances_eq_projection*`, `record_exists_iff_outputs`, …) quantifies over histories that go through
+  the cache at any point, any number of times, with any UseMapCnt at the restart and any Go map iteration order while the
+  map records were saved — and that go on connecting / disconnecting blocks on the restored index. -/
+
+/-- A restart through the cache changes no answer: the unspent set, the minimum and the on-flag are untouched, every
+    address's total is the same and its GetAllUnspent list is a rearrangement of the one before. -/
+theorem reload_keeps_every_answer (H : Bytes → Nat) (s : State) (um : Nat) (ords : List (AKey × List Inp))
+    (h : Inv H s) (hon : s.on = true) (a : Addr) :
+    let s' := step H s (.reload um ords)
+    s'.utxo = s.utxo ∧ s'.on = true ∧ s'.cfg.min = s.cfg.min ∧ s'.cfg.useMapCnt = um ∧
+    total H s' a = total H s a ∧ (getAllUnspent H s' a).Perm (getAllUnspent H s a) := by
+  simp only [step, hon, if_true]
+  refine ⟨trivial, trivial, trivial, trivial, ?_, ?_⟩
+  · simp only [total, aget_reloadBal]
+    cases hb : aget (a.idx, H a.payload) s.bal with
+    | none => rfl
+    | some b =>
+      have hK := h.2 hon (a.idx, H a.payload)
+      rw [hb] at hK
+      exact (relayout_perm um _ b hK.1).2
+  · simp only [getAllUnspent, aget_reloadBal]
+    cases hb : aget (a.idx, H a.payload) s.bal with
+    | none => exact List.Perm.refl _
+    | some b =>
+      have hK := h.2 hon (a.idx, H a.payload)
+      rw [hb] at hK
+      exact (relayout_perm um _ b hK.1).1.filterMap _
+
+/-- What the restart may hand back (why no code path may rely on an ordering of the entry lists): a MAP record whose count
+    is below the UseMapCnt of the restart — it shrank after the switch-over, or UseMapCnt was raised — comes back as a LIST
+    holding the entries in exactly the order Go's map iteration produced while saving, i.e. in ANY order. -/
+theorem shrunk_map_reloads_as_list_in_any_order (um : Nat) (b : Bal) (ord : List Inp) (hm : b.isMap = true)
+    (hp : ord.Perm b.unsp) (hlt : ord.length < um) :
+    relayout um ord b = { value := b.value, unsp := ord, isMap := false } := by
+  have : savedOrder ord b = ord := by
+    simp only [savedOrder, hm, Bool.true_and, List.isPerm_iff.2 hp, if_true]
+  simp only [relayout, this, Nat.not_le.2 hlt, if_false]
+
+/-- … and the event is exactly the byte-level round trip of disk.go: for one address type's map `m` (records as the index
+    invariant keeps them, `WFBal`), `load_map` with the restart's UseMapCnt on the file `save_map` writes when every map
+    record is iterated in the order `ord` proposes gives back, key for key, the records `relayout` computes. -/
+theorem reload_is_cache_roundtrip (um : Nat) (m : List (Nat × Bal)) (ord : Nat → List Inp) (hl : m.length < 2 ^ 64)
+    (hk : ∀ p ∈ m, p.1 < 2 ^ 64 ∧ WFBal p.2) (prev : List (Nat × Option Bal)) :
+    loadMap um (some (saveMap (m.map (fun p => (p.1, asSaved (ord p.1) p.2))))) prev
+      = (m.map (fun p => (p.1, some (relayout um (ord p.1) p.2)))).reverse := by
+  have h := disk_roundtrip um (m.map (fun p => (p.1, asSaved (ord p.1) p.2))) (by simpa using hl)
+    (by
+      intro p hp
+      obtain ⟨q, hq, rfl⟩ := List.mem_map.1 hp
+      exact ⟨(hk q hq).1, wfBal_asSaved _ _ (hk q hq).2⟩) [] prev
+  rw [List.append_nil] at h
+  rw [h, List.map_map]
+  congr 1
+  apply List.map_congr_left
+  intro p hp
+  simp only [Function.comp, norm_asSaved um (ord p.1) p.2 (hk p hp).2.nodup]
 
 /-! ### non-vacuity -/
 
@@ -645,5 +709,26 @@ example : loadPairs 2 ((saveMap dMap).take 12) = none := by decide +kernel
 example : GocoinV.Model.BalancesDisk.loadAll 2 [some (saveMap dMap), some ((saveMap dMap).take 30), some (saveMap [])] = none ∧
     GocoinV.Model.BalancesDisk.loadAll 2 [some (saveMap dMap), none] = none ∧
     (GocoinV.Model.BalancesDisk.loadAll 2 [some (saveMap dMap), some (saveMap [])]).isSome = true := by decide +kernel
+
+/-! restart through the cache inside a history: three outputs to one address with UseMapCnt 2 (map layout), one spent (a map
+    of two), restart with UseMapCnt 5 and the map iterated in DESCENDING order: the record is a list [vout 2, vout 0];
+    then vout 0 is spent: found and removed, the record is [vout 2] with the right total -/
+def rKey : Key := zRec.key
+def rEvs : List Ev := zEvs 2 ++ [.reload 5 [((2, 20), [(rKey, 2), (rKey, 0)])]]
+example : AdmissibleRun exH State.init (rEvs ++ [.del zRec.txid [true, false, false]]) := by
+  refine ⟨trivial, ?_, trivial, trivial, trivial, trivial⟩; (show aget _ _ = none); decide +kernel
+example : aget (2, 20) (run exH State.init (zEvs 2)).bal = some { value := 0, unsp := [(rKey, 0), (rKey, 2)], isMap := true } := by
+  decide +kernel
+example : aget (2, 20) (run exH State.init rEvs).bal = some { value := 0, unsp := [(rKey, 2), (rKey, 0)], isMap := false } ∧
+    (run exH State.init rEvs).cfg.useMapCnt = 5 ∧ (run exH State.init rEvs).on = true := by decide +kernel
+example : aget (2, 20) (run exH State.init (rEvs ++ [.del zRec.txid [true, false, false]])).bal =
+    some { value := 0, unsp := [(rKey, 2)], isMap := false } := by decide +kernel
+example : (getAllUnspent exH (run exH State.init (rEvs ++ [.del zRec.txid [true, false, false]])) exAddr).map (fun u => u.vout) = [2] := by
+  decide +kernel
+example : relayout 5 [(rKey, 2), (rKey, 0)] { value := 0, unsp := [(rKey, 0), (rKey, 2)], isMap := true } =
+    { value := 0, unsp := [(rKey, 2), (rKey, 0)], isMap := false } :=
+  shrunk_map_reloads_as_list_in_any_order 5 _ _ rfl (by decide +kernel) (by decide)
+example : Inv exH (run exH State.init (zEvs 2)) := inv_all_histories exH (zEvs 2) (by
+  refine ⟨trivial, ?_, trivial, trivial⟩; (show aget _ _ = none); decide +kernel)
 
 end GocoinV.Props.C17
